@@ -158,6 +158,35 @@ def read_template(path):
             out.append(ln)
     while out and out[-1] == '' and path.endswith('.inc'):
         out.pop()
+    return expand_foreach(out, path)
+
+
+def expand_foreach(lines, path):
+    """`//@foreach A,B in (x,y) (z,w)` ... `//@endforeach`: the enclosed template lines once per tuple, with @A@ / @B@ replaced.
+    One contract text for all the invocations of a macro_rules! definition (rewrite R13 at every invocation that exists in the file)."""
+    out = []
+    i = 0
+    while i < len(lines):
+        m = re.match(r'\s*//@foreach\s+([\w,]+)\s+in\s+(.*)$', lines[i])
+        if not m:
+            out.append(lines[i]); i += 1
+            continue
+        names = m.group(1).split(',')
+        tuples = [t.split(',') for t in re.findall(r'\(([^)]*)\)', m.group(2))]
+        j = i + 1
+        blk = []
+        while j < len(lines) and not re.match(r'\s*//@endforeach\s*$', lines[j]):
+            blk.append(lines[j]); j += 1
+        if j >= len(lines):
+            raise Undecided('//@foreach without //@endforeach in %s' % path)
+        for t in tuples:
+            if len(t) != len(names):
+                raise Undecided('bad //@foreach tuple in %s' % path)
+            for b in blk:
+                for n, v in zip(names, t):
+                    b = b.replace('@%s@' % n, v.strip())
+                out.append(b)
+        i = j + 1
     return out
 
 
@@ -298,6 +327,7 @@ REWRITES_DOC = {
     'R11': 'closure with one tuple-pattern parameter `|(a, b)| E` -> `|verif_pN| { let (a, b) = verif_pN; E }` (Verus accepts only variables as closure parameters; closure parameters are irrefutable patterns bound exactly like let)',
     'R12': 'std adapter calls `X.iter().map(` (X: Vec) / `(a..b).map(` renamed to the model adapters `X.verif_iter_map(` / `(a..b).verif_map(` (specs/adapters_model.vrs: verified model iterators that yield f(x) for every x in order with exact length; TRUSTED: core::iter::Map over slice::Iter / Range behaves like them)',
     'R13': 'item taken from the arm of a macro_rules! definition, the metavariables replaced by the arguments of one invocation that exists in the file (the text the compiler expands for that invocation); the other invocations differ only in the item type',
+    'R15': 'fully qualified `std::cmp::f` / `core::cmp::f` -> `cmp::f` (the path through the crate\'s own `use std::cmp;`; both name the function the model module cmp declares)',
     'R8': 'struct fields widened to pub inside the unit',
     'R1': 'doc comments / #[inline] / derives dropped',
 }
@@ -519,6 +549,11 @@ def weave_fn(src, container, name, nth, opts, subs, mode, sig_only=False):
     text, k = rw_underscore_closures(text)
     if k:
         rewrites['R3'] = rewrites.get('R3', 0) + k
+    # R15: a fully qualified path into a std module that the unit models (`std::cmp::min(..)`) names the same function as the
+    # path through the crate's `use std::cmp;` (`cmp::min(..)`): both resolve to the model module
+    text, k = re.subn(r'(?<![\w:])(?:std|core)::(cmp)::', r'\1::', text)
+    if k:
+        rewrites['R15'] = k
     # R11 only on request: a closure WITHOUT a contract tells Verus nothing about its result, so silently accepting new closures
     # would turn a harmless rewrite (`x.map(|(_, i)| i)`) into a failed proof, i.e. a false alarm
     if any(kind == 'desugar_closure_patterns' for kind, arg, lines in subs):
